@@ -6,7 +6,7 @@ TAG=$1; ID=$2; DEMO=$3; DEST=$4; CRATE=$5; TEST=$6
 OUT=/tmp/mut_$TAG/out
 V=/verif
 WT=/tmp/seedconf/wt_$TAG
-export CARGO_NET_OFFLINE=true CARGO_TARGET_DIR=/tmp/repo_target
+export CARGO_NET_OFFLINE=true CARGO_TARGET_DIR=${SEED_TARGET:-/tmp/repo_target}
 mkdir -p /tmp/seedconf $V/seeded/$ID
 LOG=$V/seeded/$ID/confirm.log
 : > $LOG
